@@ -31,7 +31,7 @@ out += ['', '%d seeds: %d caught as found, %d caught after strengthening the che
     n, c0, c1, n - c0 - c1), '']
 lines = []
 for fn in ('matrix_rounds1-4.txt', 'matrix_rounds5-7.txt', 'matrix_round8.txt',
-           'matrix_round13.txt'):
+           'matrix_round12.txt', 'matrix_round13.txt'):
     mx = os.path.join(S, fn)
     if os.path.exists(mx):
         lines += ['# ' + fn] + [l for l in open(mx).read().splitlines() if l != 'done']
